@@ -272,8 +272,8 @@ pub fn run_c12(a: &Args, rep: &mut Report) {
     // long programs (JIT up to the limit, Cranelift up to 20k/100k)
     let lens: &[usize] = if q { &[4_000, 33_000, 70_000] } else { &[4_000, 20_000, 33_000, 70_000, 131_100, 500_000, 1_000_000] };
     for (i, len) in lens.iter().enumerate() {
-        for v in 0..5u64 {
-            if (i as u64 * 5 + v) % a.nshards != a.shard % a.nshards {
+        for v in 0..6u64 {
+            if (i as u64 * 6 + v) % a.nshards != a.shard % a.nshards {
                 continue;
             }
             let c = genp::gen_long(&mut rng, *len, v);
